@@ -349,6 +349,10 @@ def normalise_guard(cond, value, dty="bool"):
     return [("truthy", t, truth)]
 
 
+OPTION_CLOSURE_VARIANT = {("Option", "or_else"): "0", ("Option", "unwrap_or_else"): "0",
+                          ("Option", "map"): "1", ("Option", "and_then"): "1"}
+
+
 def facts_at(ctx, bb, _depth=0):
     """dominating branch facts of block bb; a closure body additionally inherits the facts that
     hold where the parent hands it to its consumer (and what the consumer itself guarantees:
@@ -367,7 +371,129 @@ def facts_at(ctx, bb, _depth=0):
                 cond = operand_tree(ctx.parent, t["args"][0])
                 for f in normalise_guard(cond, "1", "bool"):
                     out.append(f + (("parent", pb),))
+            elif ctx.consumer and ctx.consumer[1] in OPTION_CLOSURE_VARIANT and \
+                    (len(ctx.consumer) < 3 or ctx.consumer[2] == 1):
+                # opt.or_else(|| ..) runs the closure only when opt is None; opt.map(|x| ..) only
+                # when it is Some
+                t = ctx.parent.body.term(pb)
+                recv = operand_tree(ctx.parent, t["args"][0])
+                out.append(("variant", recv, OPTION_CLOSURE_VARIANT[ctx.consumer[1]], ("parent", pb)))
     return out
+
+
+# ---------------------------------------------------------------------------------------------
+# infeasible blocks: two dominating branch facts that exclude each other
+
+_REL = {"Lt": {"<"}, "Le": {"<", "="}, "Eq": {"="}, "Ne": {"<", ">"}, "Ge": {">", "="}, "Gt": {">"}}
+_FLIP = {"<": ">", ">": "<", "=": "="}
+
+
+def _has_kind(t, kinds):
+    if isinstance(t, tuple):
+        if t and t[0] in kinds:
+            return True
+        return any(_has_kind(x, kinds) for x in t if isinstance(x, tuple))
+    return False
+
+
+def _tree_roots(t, out):
+    """(root, path) of every place node in t"""
+    if isinstance(t, tuple):
+        if t and t[0] == "place" and len(t) >= 4:
+            out.add((t[2], tuple(t[3])))
+        else:
+            for x in t:
+                if isinstance(x, tuple):
+                    _tree_roots(x, out)
+    return out
+
+
+def _overlaps(places, r, p):
+    for (r2, p2) in places:
+        if r2 == r:
+            k = min(len(p), len(p2))
+            if tuple(p[:k]) == tuple(p2[:k]):
+                return True
+    return False
+
+
+def _exclusive(f, g):
+    if f[0] in _REL and g[0] in _REL:
+        if f[1] == g[1] and f[2] == g[2]:
+            return not (_REL[f[0]] & _REL[g[0]])
+        if f[1] == g[2] and f[2] == g[1]:
+            return not (_REL[f[0]] & {_FLIP[x] for x in _REL[g[0]]})
+        return False
+    if f[0] == "truthy" and g[0] == "truthy":
+        return f[1] == g[1] and f[2] != g[2]
+    if f[0] == "variant" and g[0] == "variant" and f[1] == g[1]:
+        a, b = f[2], g[2]
+        if isinstance(a, str) and isinstance(b, str):
+            return a != b
+        if isinstance(a, str) and isinstance(b, tuple) and b[0] == "not":
+            return a in b[1]
+        if isinstance(b, str) and isinstance(a, tuple) and a[0] == "not":
+            return b in a[1]
+    return False
+
+
+def mutated_between(ctx, d1, bb, places):
+    """some block on a path d1 -> bb (d1's own statements included) may write one of `places`
+    ((root, path) pairs; a write to a prefix or an extension of a path counts): an assignment
+    through a projection, or a call that is handed a `&mut` into it"""
+    body = ctx.body
+    fwd = reach_strict(body, d1) | {d1}
+    region = {x for x in fwd if x == bb or bb in reach_strict(body, x)}
+    for x in region:
+        for st in body.blocks[x]["stmts"]:
+            if st["k"] == "assign" and st["place"]["p"]:
+                if any(_overlaps(places, r, _p) for (r, _p) in ctx.org.place(st["place"])):
+                    return True
+        if x == d1:
+            continue
+        t = body.term(x)
+        if t["k"] == "call" and x != bb:
+            for a in t["args"]:
+                if a["k"] in ("move", "copy"):
+                    ty = body.locals[a["place"]["l"]]["ty"]
+                    if ty.get("mut") and any(_overlaps(places, r, _p) for (r, _p) in ctx.org.operand(a)):
+                        return True
+    return False
+
+
+def fact_still_holds(ctx, f, bb):
+    """a dominating branch fact about mutable state is only usable at bb when nothing it mentions
+    can have been written between the branch and bb (a guard hoisted out of a loop that changes
+    the guarded state goes stale)"""
+    d = f[-1]
+    if not isinstance(d, int):
+        return True  # inherited from an enclosing body: not tracked
+    places = _tree_roots(tuple(x for x in f[1:-1] if isinstance(x, tuple)), set())
+    if not places:
+        return True
+    return not mutated_between(ctx, d, bb, places)
+
+
+def infeasible(ctx, bb):
+    """block bb can never run: two of its dominating branch facts exclude each other
+    (`if c { debug_assert!(c) }`, `if i < n {..} else { assert!(i >= n) }`) and nothing the facts
+    mention can have been written between the two branch points.  Deliberately narrow: only
+    syntactically identical operands, no loop-carried values."""
+    facts = [tuple(nobb(x) for x in f[:-1]) + (f[-1],) for f in facts_at(ctx, bb) if isinstance(f[-1], int)]
+    for i in range(len(facts)):
+        for j in range(i + 1, len(facts)):
+            f, g = facts[i], facts[j]
+            if not _exclusive(f, g):
+                continue
+            if _has_kind((f[1], f[2], g[1], g[2]), ("phi",)):
+                continue
+            roots = _tree_roots((f[1], f[2], g[1], g[2]), set())
+            if in_loop(ctx.body, bb) and any(r[0][0] != "arg" for r in roots):
+                continue  # a value computed inside a loop differs between iterations
+            d1 =f[-1] if ctx.body.dominates(f[-1], g[-1]) else g[-1]
+            if not mutated_between(ctx, d1, bb, roots):
+                return True
+    return False
 
 
 # ---------------------------------------------------------------------------------------------
